@@ -843,6 +843,237 @@ fn check_dst_before_src(cw: &CW, hits: &[(String, String, u64, Fault)], _crashed
     Ok(())
 }
 
+// ---------------------------------------------------------------------------
+// C13, second sentence: after a broker restart from an earlier snapshot and epoch recovery, the
+// next sync rounds bring every reachable proxy to the recovered view (uses the same world)
+// ---------------------------------------------------------------------------
+
+#[derive(Debug, Clone, Serialize, Deserialize)]
+pub struct AdoptCase {
+    pub hosts: Vec<u8>,
+    pub migration_limit: u64,
+    pub compress: bool,
+    /// fault-free script that builds the pre-crash history (proxies synced along the way)
+    pub steps: Vec<Step>,
+    /// the snapshot the restarted broker loads: taken after this step (mapped onto 0..=len-1)
+    pub snapshot_at: u16,
+    /// recovery asks the proxies for their epochs (true) or is skipped (false = the negative control
+    /// is not generated; kept for replay files)
+    pub recover: bool,
+}
+
+pub fn adopt_strategy() -> impl Strategy<Value = AdoptCase> {
+    let step = prop_oneof![
+        5 => (0u8..2).prop_map(|c| Step::Sync { c }),
+        5 => (0u8..2).prop_map(|c| Step::Mig { c }),
+        1 => (0u8..2).prop_map(|c| Step::Detect { c }),
+        1 => (0u8..2).prop_map(|c| Step::Handle { c }),
+        3 => any::<u8>().prop_map(|k| Step::ScaleOut { k }),
+        1 => any::<u8>().prop_map(|k| Step::ScaleDown { k }),
+        1 => any::<u8>().prop_map(|p| Step::Kill { p }),
+        2 => (100u16..400).prop_map(|ms| Step::Pause { ms }),
+    ];
+    (prop::collection::vec(2u8..=3, 3..=4), prop_oneof![Just(0u64), Just(1u64), Just(2u64)], any::<bool>(), (1u8..=2, prop::collection::vec(step, 3..16)), any::<u16>()).prop_map(
+        |(hosts, migration_limit, compress, (chunks, mut steps), snapshot_at)| {
+            let mut all = vec![Step::Create { chunks }, Step::Sync { c: 0 }];
+            all.append(&mut steps);
+            AdoptCase { hosts, migration_limit, compress, steps: all, snapshot_at, recover: true }
+        },
+    )
+}
+
+async fn run_adopt(case: &AdoptCase, obs: &mut Obs) -> Result<(), Fail> {
+    let cfg = BrokerCfg { hosts: case.hosts.clone(), migration_limit: case.migration_limit, ordered: false, quorum: 1, ttl: 3600 };
+    let svc = Arc::new(brokersim::new_service(&cfg, None).map_err(|e| Fail::new("harness:broker", e))?);
+    let world = World::new();
+    let ctl = Arc::new(CrashCtl::default());
+    let broker = Arc::new(FaultyBroker { svc: svc.clone(), net: world.net.clone(), ctl: ctl.clone(), commits: Mutex::new(vec![]), commit_marks: Mutex::new(vec![]) });
+    let mut cw = CW { world, svc: svc.clone(), broker, ctl, compress: case.compress, addrs: vec![], killed: BTreeSet::new(), last_epoch: BTreeMap::new() };
+    let opts = ProxyOpts::default();
+    for (h, n) in case.hosts.iter().enumerate() {
+        for i in 0..*n {
+            let (addr, nodes) = brokersim::proxy_addr(h as u8, i as u32);
+            let payload = serde_json::json!({"proxy_address": addr, "nodes": nodes, "host": brokersim::host_name(h as u8), "index": null});
+            svc.add_proxy(serde_json::from_value(payload).expect("payload")).await.map_err(|e| Fail::new("harness:add_proxy", e.to_string()))?;
+            cw.world.net.add_proxy(&addr, &opts);
+            for nd in nodes.iter() {
+                cw.world.net.add_redis(nd, i as u64);
+            }
+            cw.addrs.push(addr);
+        }
+    }
+    // pre-crash history; a snapshot (what the broker would have persisted) after every step
+    let mut snapshots: Vec<(serde_json::Value, bool)> = vec![];
+    for st in &case.steps {
+        match st {
+            Step::Create { chunks } => {
+                let _ = cw.svc.add_cluster("c0".into(), *chunks as usize * 4).await;
+            }
+            Step::ScaleOut { k } => {
+                let store = cw.store().await;
+                let free = store.free_healthy().len();
+                let chunks = 1 + (*k as usize) % (free / 2).max(1).min(2);
+                if cw.svc.auto_add_nodes("c0".into(), chunks * 4).await.is_ok() {
+                    cw.round(cw.sync_round()).await;
+                    let _ = cw.svc.migrate_slots("c0".into()).await;
+                }
+            }
+            Step::ScaleDown { k } => {
+                let store = cw.store().await;
+                let chunks = store.clusters.get("c0").map(|c| c.chunks.len()).unwrap_or(0);
+                if chunks >= 2 {
+                    let target = 1 + (*k as usize) % (chunks - 1);
+                    let _ = cw.svc.migrate_slots_to_scale_down("c0".into(), target * 4).await;
+                }
+            }
+            Step::Sync { .. } => {
+                cw.round(cw.sync_round()).await;
+            }
+            Step::Mig { .. } => {
+                cw.round(cw.mig_round()).await;
+            }
+            Step::SyncAndMig => {
+                cw.round(async { futures::join!(cw.sync_round(), cw.mig_round()); }).await;
+            }
+            Step::Detect { c } => {
+                cw.round(cw.detect_round(*c)).await;
+            }
+            Step::Handle { .. } => {
+                cw.round(cw.handle_round()).await;
+            }
+            Step::Restart { .. } => {}
+            Step::Kill { p } => {
+                let a = cw.addrs[*p as usize % cw.addrs.len()].clone();
+                cw.world.net.gate.down.lock().insert(a.clone());
+                cw.killed.insert(a);
+            }
+            Step::Pause { ms } => tokio::time::sleep(Duration::from_millis(*ms as u64)).await,
+        }
+        tokio::time::sleep(Duration::from_millis(5)).await;
+        let data = cw.svc.get_all_data().await.map_err(|e| Fail::new("harness:get_all_data", format!("{:?}", e)))?;
+        let store = cw.store().await;
+        let mid = store.clusters.values().any(|c| c.chunks.iter().any(|ch| ch.migrating_slots.iter().any(|m| !m.is_empty()) || ch.role_position != "Normal"));
+        snapshots.push((serde_json::to_value(&data).expect("ser"), mid));
+    }
+    // the broker crashes and restarts from an earlier snapshot (any prefix of its history)
+    let k = pick(case.snapshot_at, snapshots.len());
+    let (snap, mid) = snapshots[k].clone();
+    if k + 1 < snapshots.len() {
+        obs.class("snapshot:older-than-the-crash-state");
+    }
+    if mid {
+        obs.class("snapshot:mid-migration-or-flipped-chunk");
+    }
+    let svc2 = Arc::new(brokersim::new_service(&cfg, Some(snap)).map_err(|e| Fail::new("harness:restart", e))?);
+    cw.svc = svc2.clone();
+    cw.broker = Arc::new(FaultyBroker { svc: svc2.clone(), net: cw.world.net.clone(), ctl: cw.ctl.clone(), commits: Mutex::new(vec![]), commit_marks: Mutex::new(vec![]) });
+    // epoch recovery with the largest epoch held by any reachable proxy (what recover_epoch collects)
+    let mut max_epoch = 0u64;
+    let mut held: BTreeMap<String, u64> = BTreeMap::new();
+    for a in &cw.addrs {
+        if cw.killed.contains(a) {
+            continue;
+        }
+        if let Resp::Integer(i) = cw.world.once(a, &cmd(&["UMCTL", "GETEPOCH"])).await {
+            let e: u64 = std::str::from_utf8(&i).ok().and_then(|s| s.parse().ok()).unwrap_or(0);
+            held.insert(a.clone(), e);
+            max_epoch = max_epoch.max(e);
+        }
+    }
+    let snap_epoch = cw.store().await.global_epoch;
+    if max_epoch > snap_epoch {
+        obs.class("proxies-ahead-of-the-snapshot");
+        if mid || k + 1 < snapshots.len() {
+            obs.nontrivial = true;
+        }
+    }
+    if case.recover {
+        svc2.verif_recover_epoch_with(max_epoch).await.map_err(|e| Fail::new("harness:recover", format!("{:?}", e)))?;
+    }
+    // every view served now is above every proxy's installed epoch
+    for (a, e) in &held {
+        if let Ok(Some(p)) = svc2.get_proxy_by_address(a).await {
+            ensure!(p.get_epoch() > *e, "C13:view-epoch-not-above-proxy-epochs", "after restart from the snapshot of step {} and recovery with max epoch {}, the view served for {} has epoch {} but the proxy holds {}", k, max_epoch, a, p.get_epoch(), e);
+        }
+    }
+    // the next sync rounds: every reachable proxy adopts the recovered view
+    const K: usize = 6;
+    let mut history: Vec<String> = vec![];
+    let mut done = None;
+    for cycle in 1..=4 * K {
+        cw.round(cw.detect_round(0)).await;
+        cw.round(cw.handle_round()).await;
+        cw.round(cw.sync_round()).await;
+        tokio::time::sleep(Duration::from_millis(300)).await;
+        cw.round(cw.mig_round()).await;
+        cw.round(cw.sync_round()).await;
+        tokio::time::sleep(Duration::from_millis(50)).await;
+        cw.epochs(&format!("after recovery, cycle {}", cycle)).await.map_err(|f| Fail::new("C13:proxy-epoch-regressed-after-recovery", f.message))?;
+        match converged(&cw).await {
+            Ok(()) => {
+                done = Some(cycle);
+                break;
+            }
+            Err(d) => history.push(d),
+        }
+    }
+    match done {
+        Some(c) => obs.maximum("cycles_until_adopted", c as u64),
+        None => {
+            let last = history.last().cloned().unwrap_or_default();
+            let stuck = history.len() >= K && history[history.len() - K..].iter().all(|h| *h == last);
+            if stuck {
+                fail!(
+                    "C13:recovered-view-not-adopted",
+                    "broker restarted from the snapshot taken after step {} of {} (epoch {}), recovery ran with max proxy epoch {}; {} clean coordinator cycles later the proxies still do not hold the recovered view, the last {} cycles changed nothing: {}",
+                    k,
+                    snapshots.len(),
+                    snap_epoch,
+                    max_epoch,
+                    4 * K,
+                    K,
+                    last
+                );
+            }
+            obs.class("inconclusive:still-moving-after-4K-cycles");
+        }
+    }
+    // the slot partition holds again in the recovered broker
+    let store = cw.store().await;
+    if let Some(c) = store.clusters.get("c0") {
+        let view: brokersim::VCluster = match cw.svc.get_cluster_by_name("c0").await {
+            Ok(Some(cl)) => serde_json::from_value(serde_json::to_value(&cl).expect("ser")).expect("VCluster"),
+            _ => return Ok(()),
+        };
+        let _ = c;
+        let mut owner = vec![0u8; 16384];
+        for n in &view.nodes {
+            for sr in &n.slots {
+                if sr.tag.kind() == "importing" {
+                    continue;
+                }
+                for (a, b) in &sr.range_list {
+                    for s in *a..=*b {
+                        owner[s] += 1;
+                    }
+                }
+            }
+        }
+        let bad = owner.iter().position(|x| *x != 1);
+        ensure!(bad.is_none(), "C13:partition-broken-after-recovery", "after recovery and {} cycles slot {:?} has {} owners in the cluster view", done.unwrap_or(0), bad, bad.map(|b| owner[b]).unwrap_or(0));
+    }
+    Ok(())
+}
+
+pub fn check_adopt(case: &AdoptCase, obs: &mut Obs) -> Result<(), Fail> {
+    let rt = tokio::runtime::Builder::new_current_thread().enable_all().start_paused(true).build().expect("rt");
+    let r = rt.block_on(run_adopt(case, obs));
+    drop(rt);
+    r
+}
+
+pub const RULE_ADOPT: &str = "the coordinator world of C07 (real broker, 6..12 real proxies, real coordinator components) without faults: a generated script (create, scale out/in with migrations, sync/migration/detect/handle rounds, proxy kills, pauses) builds the pre-crash history with the proxies synced along the way; the broker is then replaced by a NEW service loaded from the snapshot taken after a generated earlier step (any prefix, incl. mid-migration / flipped chunks); recovery runs with the largest epoch any reachable proxy reports (hook H2); oracle: every served view is above every proxy's epoch, no proxy's epoch decreases, and within 24 clean coordinator cycles every reachable proxy known to the recovered broker holds exactly its view (epoch, replication roles, routing probes, no uncommitted finished migration; violation only if the last 6 cycles changed nothing), and the cluster view partitions the 16384 slots; non-trivial = proxies were ahead of the restored snapshot and the snapshot is older than the crash state or taken mid-migration; distinct = hash of the case";
+
 pub fn check(case: &CCase, obs: &mut Obs) -> Result<(), Fail> {
     let rt = tokio::runtime::Builder::new_current_thread().enable_all().start_paused(true).build().expect("rt");
     let r = rt.block_on(run(case, obs));
